@@ -70,11 +70,21 @@ def _check(run, replay, work):
     rp = run.tlc("Determinism", "MC_Determinism_pinned.cfg", expect_ok=False, timeout=600)
     if rp.violated != "Functional":
         raise MachineryError("Determinism.tla does not reject the set-iteration merge (vacuous Functional?)")
+    rp = run.tlc("Determinism", "MC_Determinism_pinned_scan.cfg", expect_ok=False, timeout=600)
+    if rp.violated != "Functional":
+        raise MachineryError("Determinism.tla does not reject the set-ordered phrase scan (vacuous Functional?)")
     run.extra["pinned_merge_rejected_by_tlc"] = True
     # the inputs: enumerate with a dump run (single worker so that lines stay intact)
     spec_inputs = _enumerate_inputs(run, n)
     jobs = []
     for x in spec_inputs:
+        if x.get("phr"):
+            tag = "".join(map(str, x["phr"]))
+            jobs.append({"api": "function.parse", "id": "s:{}".format(tag), "input": {"n": 1, "doc": [1], "typed": False, "phr": x["phr"]}})
+            jobs.append({"api": "class.parse", "id": "sc:{}".format(tag), "input": {"n": 1, "doc": [1], "phr": x["phr"]}})
+            for style in ("rest", "google", "numpydoc"):
+                jobs.append({"api": "docstring.parse", "id": "sd:{}:{}".format(style, tag), "input": {"style": style, "phr": x["phr"]}})
+            continue
         for typed in (False, True):
             jobs.append({"api": "function.parse", "id": "f{}:{}:{}".format(x["n"], "".join(map(str, x["doc"])), int(typed)),
                          "input": {"n": x["n"], "doc": x["doc"], "typed": typed}, "model_out": x["out"]})
@@ -160,7 +170,7 @@ def _enumerate_inputs(run, n):
         raise MachineryError("Determinism input enumeration failed:\n" + r.stdout[-1500:])
     seen, out = set(), []
     for d in r.printed:
-        k = (d["n"], tuple(d["doc"]))
+        k = (d["n"], tuple(d["doc"]), tuple(d.get("phr") or ()))
         if k not in seen:
             seen.add(k)
             out.append(d)
